@@ -814,4 +814,17 @@ theorem initState_ok {ctx : Ctx} (hm : ModFacts ctx.mod) {fname : String} {args 
       obtain ⟨bE, env, hbE, rfl⟩ := newFrame_shape hnf
       exact ⟨frameOK_new (hm f (findFunc_mem hf)) hbE env _ _, trivial⟩
 
+/-- `defPos` finds an instruction that defines the name -/
+theorem defPos_spec {f : Func} {T : DomTab} (hf : SSAFacts f T) {x : String} {p : Pos} (h : defPos f x = some p) :
+    ∃ i, instrAtPos f p = some i ∧ dstName i = some x := by
+  simp only [defPos] at h
+  obtain ⟨b, hbm, hb⟩ := List.exists_of_findSome?_eq_some h
+  simp only [Option.map_eq_some_iff] at hb
+  obtain ⟨k, hk, rfl⟩ := hb
+  obtain ⟨hlt, hpred⟩ := List.findIdx?_eq_some_iff_getElem.1 hk
+  refine ⟨b.instrs[k], instrAtPos_iff.2 ⟨b, findBlock_of_mem hf.names hbm, by simp [List.getElem?_eq_getElem hlt]⟩, ?_⟩
+  simpa using hpred.1
+
+
+
 end Proofs.Opt
